@@ -26,8 +26,8 @@ PROPS["C14"] = {
             "tests": {
                 "TestC14ExpandXMD": T(6000, 400000),
                 "TestC14ExpandXOF": T(3000, 200000),
-                "TestC14Suites": T(1600, 100000),
-                "TestC14UniformToPoint": T(600, 40000),
+                "TestC14Suites": T(1600, 100000, shards={"quick": 4, "thorough": 16}),
+                "TestC14UniformToPoint": T(600, 40000, shards={"quick": 4, "thorough": 16}),
                 "TestC14AbortBoundaries": LIST(),
                 "TestC14RFCInputs": LIST(),
             },
@@ -35,7 +35,7 @@ PROPS["C14"] = {
         {
             "pkg": "internal/elligator", "configs": ALL4,
             "tests": {
-                "TestC14Map": T(3000, 200000),
+                "TestC14Map": T(3000, 200000, shards={"quick": 4, "thorough": 16}),
                 "TestC14SetEdwardsFromXY": T(1500, 60000),
                 "TestC14MapSpecial": LIST(),
             },
